@@ -193,3 +193,58 @@ Proof.
             arrs := [(7, [1; 2]%Z)] |}, [0], [WriteArr 7 [9; 9]%Z].
   vm_compute. discriminate.
 Qed.
+
+(* ================= (c) binary operators never write their operands ======== *)
+Lemma expand_loop_trust_fresh n : forall copied is_copy orig fresh,
+  (copied = true -> is_copy = true) -> is_fresh fresh = true ->
+  let '(l, c, k) := expand_loop_trust n copied is_copy orig fresh in
+  forallb is_fresh l = true /\ (c = true -> k = true) /\ (n <> 0 -> c = true) /\ (n = 0 -> c = copied /\ k = is_copy).
+Proof.
+  induction n as [|n IH]; intros copied is_copy orig fresh Hc Hf; cbn [expand_loop_trust].
+  - repeat split; try assumption; try congruence.
+  - set (ic := if copied then is_copy else true).
+    assert (Hic : ic = true) by (unfold ic; destruct copied; [apply Hc; reflexivity | reflexivity]).
+    specialize (IH true ic orig fresh (fun _ => Hic) Hf).
+    destruct (expand_loop_trust n true ic orig fresh) as [[l c] k].
+    destruct IH as [Hl [Hck [Hn0 Hz]]]. rewrite Hic. cbn [forallb]. rewrite Hf, Hl.
+    repeat split; try congruence.
+    + exact Hck.
+    + intros _. destruct n as [|n']; [destruct Hz as [Hz _]; [reflexivity | exact Hz] | apply Hn0; discriminate].
+Qed.
+
+Theorem binop_writes_fresh nl nr : forallb is_fresh (binop_writes nl nr) = true.
+Proof.
+  unfold binop_writes, binop_writes_gen.
+  pose proof (expand_loop_trust_fresh nl false false TSelf TFreshL ltac:(discriminate) eq_refl) as H1.
+  destruct (expand_loop_trust nl false false TSelf TFreshL) as [[wl c1] k1]. destruct H1 as [Hl _].
+  pose proof (expand_loop_trust_fresh nr false false TOther TFreshR ltac:(discriminate) eq_refl) as H2.
+  destruct (expand_loop_trust nr false false TOther TFreshR) as [[wr c2] k2]. destruct H2 as [Hr [Hck _]].
+  rewrite !forallb_app, Hl, Hr. cbn [andb].
+  destruct c2; [rewrite (Hck eq_refl); reflexivity | reflexivity].
+Qed.
+
+(* without the reset between the loops the flag set by the LEFT copy is trusted
+   for the right operand: the caller's right tensor is written *)
+Theorem binop_without_reset_writes_operand :
+  exists nl nr, existsb (tgt_eqb TOther) (binop_writes_gen false nl nr) = true.
+Proof. exists 1, 1. vm_compute. reflexivity. Qed.
+
+Lemma respects_binop_body a b fa fb payload refs ws :
+  fa <> a -> fa <> b -> fb <> a -> fb <> b -> forallb is_fresh ws = true ->
+  forallb (respects [a; b] refs) (binop_body a b fa fb payload ws) = true.
+Proof.
+  intros H1 H2 H3 H4 Hf. unfold binop_body. apply forallb_forall. intros p Hp.
+  apply in_map_iff in Hp. destruct Hp as [[k t] [Ep Hin]]. subst p.
+  apply in_combine_r in Hin. rewrite forallb_forall in Hf. specialize (Hf t Hin).
+  unfold respects. cbn [writes_obj writes_arr snd fst existsb]. rewrite andb_true_r, orb_false_r.
+  destruct t; cbn in Hf; try discriminate; cbn [obj_of];
+    apply negb_true_iff; apply orb_false_iff; split; apply Nat.eqb_neq; assumption.
+Qed.
+
+Theorem binop_leaves_operands_unchanged h a b fa fb payload nl nr :
+  fa <> a -> fa <> b -> fb <> a -> fb <> b ->
+  fingerprint (run h (binop_body a b fa fb payload (binop_writes nl nr))) [a; b] = fingerprint h [a; b].
+Proof.
+  intros H1 H2 H3 H4. apply plain_call_leaves_receiver_unchanged.
+  apply respects_binop_body; try assumption. apply binop_writes_fresh.
+Qed.
